@@ -150,6 +150,8 @@ func verifStub(seg segment.Segment) *verifSeg {
 		return &t.verifSeg
 	case *verifSizedSeg:
 		return &t.verifSeg
+	case *verifNSeg:
+		return &t.verifSeg
 	}
 	return nil
 }
